@@ -118,3 +118,42 @@ Theorem C03_tree_completeness : forall exec st t, lits_ok t ->
   = (st, res_value (eval_ast (to_term t))).
 Proof. exact expr_eval_tree_std. Qed.
 Print Assumptions C03_tree_completeness.
+
+(* ---- the full grammar (Proofs/ExprFacts2.v) ----
+   tree2: integer and float literals, parentheses anywhere, unary - + ! ~, the 20 ordinary binary
+   operators, && and || (short-circuit), ?: (right associative), abs/double/int/round; every token
+   carries its own run of spaces/tabs.  `ok` says the tree is written as the grammar requires
+   (operands bind tightly enough or are parenthesised, literals in range, word operators
+   separated by white space); `bnot_ok` excludes `~` applied to a float (there the model and the
+   reference both report an error, with different messages: C03_bnot_float_messages_differ). *)
+From Molt Require Import Proofs.ExprFacts2.
+
+Theorem C03_full_grammar_completeness : forall exec st t lead trail,
+  ok t = true -> bnot_ok t = true -> ws lead = true -> ws trail = true ->
+  expr_eval (u_alnum std_uni) (u_alpha std_uni) exec st (VStr (lead ++ render2 t ++ trail))
+  = (st, res_value (eval_ast (to_term2 t))).
+Proof. exact expr_eval_tree2_ws_std. Qed.
+Print Assumptions C03_full_grammar_completeness.
+
+(* with no side condition on `~`: same value, or an error on both sides; the state is unchanged *)
+Theorem C03_full_grammar_value_or_error : forall exec st t, ok t = true ->
+  let E := expr_eval (u_alnum std_uni) (u_alpha std_uni) exec st (VStr (render2 t)) in
+  fst E = st /\ res_sim (snd E) (res_value (eval_ast (to_term2 t))).
+Proof. exact expr_eval_tree2_sim_std. Qed.
+Print Assumptions C03_full_grammar_value_or_error.
+
+(* parentheses inserted exactly where C precedence and associativity require them *)
+Theorem C03_minimal_parentheses : forall exec st t, sok t = true -> bnot_ok t = true ->
+  expr_eval (u_alnum std_uni) (u_alpha std_uni) exec st (VStr (render2_c t))
+  = (st, res_value (eval_ast (to_term2 t))).
+Proof. exact expr_eval_tree2_c_std. Qed.
+Print Assumptions C03_minimal_parentheses.
+
+Theorem C03_bnot_float_messages_differ : forall exec st,
+  let t := U UBnot [] (Fn FDouble [] [] [] (L 1)) in
+  ok t = true /\ bnot_ok t = false /\
+  expr_eval (u_alnum std_uni) (u_alpha std_uni) exec st (VStr (render2 t)) =
+    (st, err (lit "can't use floating-point value as operand of ""~""")) /\
+  res_value (eval_ast (to_term2 t)) = err (lit "type").
+Proof. exact bnot_float_counterexample. Qed.
+Print Assumptions C03_bnot_float_messages_differ.
